@@ -106,6 +106,18 @@ pub fn atoms(thorough: bool) -> Vec<Atom> {
             v.push(atom(format!("groups|{}", p.key), p.src, false));
         }
     }
+    // the rarely used kinds, the wide cases and the large indices of C04's space (in both tiers)
+    for p in crate::c04::space(false).into_iter().filter(|p| p.key.starts_with("rare|") || p.key.starts_with("wide|") || (p.key.starts_with("big|") && p.key.contains("65536"))) {
+        v.push(atom(format!("groups|{}", p.key), p.src, false));
+    }
+    // resource types the generator refuses on this tree (it panics: the shader is not accepted). A tree that accepts them
+    // owes a module that compiles: alone in a group, first of a group, in a middle group
+    for (what, ty) in [("atomic-top", "var<storage, read_write> rare_res: atomic<u32>"), ("binding-array", "var rare_res: binding_array<texture_2d<f32>, 2>")] {
+        v.push(atom(format!("groups|refused|{what}|alone-in-last-group"), format!("@group(0) @binding(0) var<uniform> first_u: vec4<f32>;\n@group(1) @binding(0) {ty};\n@compute @workgroup_size(1) fn main() {{ let x = first_u.x; }}\n"), false));
+        v.push(atom(format!("groups|refused|{what}|alone-in-only-group"), format!("@group(0) @binding(0) {ty};\n@compute @workgroup_size(1) fn main() {{ }}\n"), false));
+        v.push(atom(format!("groups|refused|{what}|with-others"), format!("@group(0) @binding(0) {ty};\n@group(0) @binding(1) var<uniform> other_u: vec4<f32>;\n@compute @workgroup_size(1) fn main() {{ let x = other_u.x; }}\n"), false));
+        v.push(atom(format!("groups|refused|{what}|middle-group"), format!("@group(0) @binding(0) var<uniform> a_u: vec4<f32>;\n@group(1) @binding(0) {ty};\n@group(2) @binding(0) var<uniform> c_u: vec4<f32>;\n@compute @workgroup_size(1) fn main() {{ let x = a_u.x + c_u.x; }}\n"), false));
+    }
     // ---- naming atoms: Rust keywords naga accepts, generator-introduced names, non-ASCII, collisions
     for pos in POSITIONS {
         for kw in RUST_KEYWORDS {
